@@ -64,7 +64,7 @@ fn corrupt(lines: &[String], r: &mut Rng) -> Option<(Vec<String>, usize)> {
 
 pub fn run(ctx: &mut Ctx) {
     let prop = "C13";
-    ctx.ev.rule = "valid stream: generated transaction lists of all seven kinds (decimals of scale 0–28, mantissas to 2^96−1, tickers incl. 'SELL', 'TAX', '10', currencies incl. XXX/XTS/BHD), rendered with random non-empty blank runs (spaces/tabs, none after '@'), per-character case of keywords/currency codes/tickers, omitted GBP and zero clauses, leading blanks, blank lines, comment lines, trailing '#' comments after any complete transaction, LF/CRLF/CR per line or uniform, with/without final newline: the real parser must return exactly the generated list; a sample is also dealt over 2–3 files (earlier files mostly without a final newline, ending in a bare line or a comment) and read by the real `cgt-tool parse a b …`, which must print exactly the list (GBP for omitted currency, zero for omitted clauses, tickers upper-cased) and agree with the Lean model. hostile stream: one token of one line of such a file deleted, duplicated, replaced by garbage, glued to its neighbour or swapped: accept/reject must agree with the model, the reported line (pest's '--> L:C') must be the corrupted line, and if still accepted the parsed list must equal the model's. Non-trivial = files with ≥ 2 transactions and at least one non-LF line ending or comment; distinct by text.".into();
+    ctx.ev.rule = "valid stream: generated transaction lists of all seven kinds (decimals of scale 0–28, mantissas to 2^96−1, tickers incl. 'SELL', 'TAX', '10', currencies incl. XXX/XTS/BHD), rendered with random non-empty blank runs (spaces/tabs, none after '@'), per-character case of keywords/currency codes/tickers, omitted GBP and zero clauses, leading blanks, blank lines, comment lines, trailing '#' comments after any complete transaction, LF/CRLF/CR per line or uniform, with/without final newline: the real parser must return exactly the generated list; a sample is also dealt over 2–3 files (earlier files mostly without a final newline, ending in a bare line or a comment) and read by the real `cgt-tool parse a b …`, which must print exactly the list (GBP for omitted currency, zero for omitted clauses, tickers upper-cased) and agree with the Lean model. hostile stream (LF or CRLF line endings): one token of one line of such a file deleted, duplicated, replaced by garbage, glued to its neighbour or swapped: accept/reject must agree with the model, the reported line (pest's '--> L:C') must be the corrupted line, and if still accepted the parsed list must equal the model's. Non-trivial = files with ≥ 2 transactions and at least one non-LF line ending or comment; distinct by text.".into();
     let mut r = Rng::new(ctx.seed ^ 0xC13);
     let n = ctx.n(600, 40_000);
     let mut cli_left: u32 = if ctx.tier == Tier::Quick { 16 } else { 200 };
@@ -133,7 +133,8 @@ pub fn run(ctx: &mut Ctx) {
         // hostile variant
         if let Some((lines, bad_line)) = corrupt(&f.lines, &mut r) {
             ctx.ev.count("corruptions");
-            let text = lines.join("\n");
+            // LF or CRLF throughout: either way the offending line's number is its ordinal
+            let text = lines.join(if r.chance(1, 2) { "\n" } else { "\r\n" });
             let got = impl_parse(&text);
             match &got {
                 Ok(_) => ctx.ev.count("corrupted-still-valid"),
